@@ -117,6 +117,7 @@ def run(model: Model, rep: Report) -> None:
     s4 = "".join(unparse(ol.node).split())
     r4.check("ifself.reversed:bits=[1-bforbinbits]" in s4 and "arr[i//8]+=" in s4 and "(len(bits)+7)//8" in s4, site(ol), ol.qualname, "rows are packed into ceil(width / 8) bytes; BlackIs1 inverts every bit", why="row packing changed")
     _mode_geometry(model, rep)
+    _run_lengths(model, rep)
 
 
 def _mode_geometry(model: Model, rep: Report) -> None:
@@ -182,3 +183,32 @@ def _mode_geometry(model: Model, rep: Report) -> None:
     r5.check(okv, site(fv), fv.qualname, "vertical mode: a1 = b1 + offset, clamped to the row; the run starts at a0", why="offset/clamp changed")
     sp = "".join(unparse(fp.node).split())
     r5.check("x1=self._curpos+1" in sp and "forxinrange(self._curpos,x1):self._curline[x]=self._color" in sp and sp.rstrip().endswith("self._curpos=x1"), site(fp), fp.qualname, "pass mode: pixels up to b2 take the current colour, a0 moves to b2, the colour is kept", why="pass mode body changed")
+
+
+def _run_lengths(model: Model, rep: Report) -> None:
+    """C19-R6: a run of horizontal mode is the SUM of its codes - any number of make-up codes (multiples of 64, the 2560 code
+    may repeat) followed by one terminating code (< 64)."""
+    from ..cfg import build_cfg
+
+    r6 = rep.rule("C19-R6", "NORMFORM", "horizontal mode: each run length accumulates every code word (make-up codes add up, a terminating code < 64 ends the run); the first run starts from 0, the second from 0 when the first ends", 5)
+    pm = model.func(C + "CCITTG4Parser._parse_mode")
+    for fname, fld, other in (("_parse_horiz1", "self._n1", "self._n2"), ("_parse_horiz2", "self._n2", None)):
+        f = model.func(C + "CCITTG4Parser." + fname)
+        p = f.params[1] if len(f.params) > 1 else "n"
+        g = build_cfg(f.node, exc_edges=False)
+
+        def is_acc(nd, fld=fld, p=p) -> bool:
+            a = nd.ast
+            return nd.kind == "stmt" and isinstance(a, ast.AugAssign) and isinstance(a.op, ast.Add) and unparse(a.target) == fld and unparse(a.value) == p
+
+        wit = g.all_path_pass(g.entry, is_acc)
+        plain = [n for n in walk_no_nested(f.node) if isinstance(n, ast.Assign) and any(unparse(t) == fld for t in n.targets)]
+        other_acc = [n for n in walk_no_nested(f.node) if isinstance(n, ast.AugAssign) and unparse(n.target) == fld and not (isinstance(n.op, ast.Add) and unparse(n.value) == p)]
+        r6.check(wit is None and not plain and not other_acc, site(f), f.qualname, f"`{fld} += {p}` on every path that returns (make-up and terminating codes alike); no other write of {fld}", why=("a returning path does not add the code to the run; " if wit is not None else "") + (f"plain assignment `{unparse(plain[0])}` discards the make-up codes accumulated so far (a run of 2560 + 64 + 26 would decode as 90); " if plain else "") + (f"`{unparse(other_acc[0])}`" if other_acc else ""))
+        tests = [unparse(n.test).replace(" ", "") for n in walk_no_nested(f.node) if isinstance(n, ast.If) and isinstance(n.test, ast.Compare) and p in unparse(n.test) and "None" not in unparse(n.test)]
+        r6.check(tests == [f"{p}<64"], site(f), f.qualname, f"a code below 64 is a terminating code: it ends the run ({fname})", why=f"tests on the code: {tests}")
+        if other:
+            z = [n for n in walk_no_nested(f.node) if isinstance(n, ast.Assign) and any(unparse(t) == other for t in n.targets)]
+            r6.check(len(z) == 1 and unparse(z[0].value) == "0", site(f), f.qualname, f"the second run starts from 0 when the first run's terminating code arrives", why=f"{[unparse(x) for x in z]}")
+    z1 = [n for n in walk_no_nested(pm.node) if isinstance(n, ast.Assign) and any(unparse(t) == "self._n1" for t in n.targets)]
+    r6.check(len(z1) == 1 and unparse(z1[0].value) == "0", site(pm), pm.qualname, "horizontal mode starts the first run from 0", why=f"{[unparse(x) for x in z1]}")
